@@ -381,6 +381,12 @@ pub struct Ctl {
     pub ops: Vec<u8>,
     pub prev_op: u8,
     pub probes: Probes,
+    /// collections counter of the VM when the scheduler last looked
+    pub seen_collections: u64,
+    /// production-policy collections observed (not triggered by the scheduler)
+    pub gc_production: u64,
+    /// unwind out of the VM as soon as an audit finds a corrupted heap (I1/I3/I4)
+    pub poisoned: bool,
 }
 
 #[derive(Clone, Debug, Default)]
@@ -520,6 +526,44 @@ impl Ctl {
             ops: vec![],
             prev_op: 0,
             probes: Probes::default(),
+            seen_collections: 0,
+            gc_production: 0,
+            poisoned: false,
+        }
+    }
+
+    /// audit bookkeeping shared by forced, policy and production collections
+    fn audit_now(&mut self, vm: &Vm) {
+        self.audit_count += 1;
+        let report = audit(vm);
+        if report.live_continuations > 0 {
+            self.probes.gc_with_live_continuation += 1;
+        }
+        let dangerous = report
+            .findings
+            .iter()
+            .any(|f| matches!(f.invariant, "I1" | "I3" | "I4"));
+        if !report.findings.is_empty() && self.audits.len() < self.max_audit_findings {
+            self.audits.push((self.form, self.boundary, report));
+        }
+        if dangerous {
+            self.poisoned = true;
+        }
+    }
+
+    /// A collection that the VM's own policy ran since the scheduler last looked
+    /// (every 8192 cycles, at a slice end, after an evaluation).
+    pub fn note_production_gc(&mut self, vm: &Vm) {
+        let now = vm.verif_state().collections;
+        if now != self.seen_collections {
+            self.gc_production += now - self.seen_collections;
+            self.seen_collections = now;
+            if vm.verif_state().last_freed > 0 {
+                self.gc_freed_nonzero += 1;
+            }
+            if !matches!(self.audit, AuditMode::Off) {
+                self.audit_now(vm);
+            }
         }
     }
 
@@ -579,23 +623,18 @@ impl Ctl {
             AuditMode::Every => true,
             AuditMode::EveryNth(n) => self.gc_forced % n == 0,
         };
+        self.seen_collections = vm.verif_state().collections;
         if do_audit {
-            self.audit_count += 1;
-            let report = audit(vm);
-            if report.live_continuations > 0 {
-                self.probes.gc_with_live_continuation += 1;
-            }
-            if !report.findings.is_empty() && self.audits.len() < self.max_audit_findings {
-                self.audits.push((self.form, self.boundary, report));
-            } else if self.audits.is_empty() && self.audit_count == 1 {
-                // keep the first clean report's sizes for the evidence
-            }
-            // set sizes of last audit for evidence
+            self.audit_now(vm);
         }
     }
 
     /// Called from the H2 hook before every instruction.
     pub fn on_boundary(&mut self, vm: &mut Vm) {
+        self.note_production_gc(vm);
+        if self.poisoned {
+            panic!("verif: heap audit found a corrupted heap; run stopped");
+        }
         let next_op = vm.verif_next_opcode().map(|o| opcode_id(&o)).unwrap_or(0);
         if self.record_ops {
             self.ops.push(next_op);
@@ -614,20 +653,17 @@ impl Ctl {
                     if vm.verif_heap().capacity() > cap_before {
                         self.probes.heap_grew += 1;
                     }
-                    let do_audit = !matches!(self.audit, AuditMode::Off);
-                    if do_audit {
-                        self.audit_count += 1;
-                        let report = audit(vm);
-                        if !report.findings.is_empty()
-                            && self.audits.len() < self.max_audit_findings
-                        {
-                            self.audits.push((self.form, self.boundary, report));
-                        }
+                    self.seen_collections = vm.verif_state().collections;
+                    if !matches!(self.audit, AuditMode::Off) {
+                        self.audit_now(vm);
                     }
                 }
             }
         } else if self.want_gc(next_op) {
             self.forced_collect(vm, next_op);
+        }
+        if self.poisoned {
+            panic!("verif: heap audit found a corrupted heap; run stopped");
         }
         self.prev_op = next_op;
         self.boundary += 1;
@@ -771,7 +807,7 @@ impl Sim {
         self.form_index += 1;
         if self.dead {
             return Obs {
-                outcome: Outcome::Panic("vm dead after earlier panic".into()),
+                outcome: Outcome::Panic("vm dead after earlier panic or audit finding".into()),
                 output: vec![],
                 trace: None,
                 instrs: 0,
@@ -818,7 +854,16 @@ impl Sim {
                         remaining as usize
                     };
                     resumes += 1;
-                    match this.vm.run_count(eff)? {
+                    let r = this.vm.run_count(eff);
+                    {
+                        let mut c = this.ctl.borrow_mut();
+                        c.note_production_gc(&this.vm);
+                        if c.poisoned {
+                            drop(c);
+                            panic!("verif: heap audit found a corrupted heap; run stopped");
+                        }
+                    }
+                    match r? {
                         Some(cell) => return Ok(Some(cell)),
                         None => {
                             if eff == budget {
@@ -883,7 +928,7 @@ impl Sim {
                     c.boundary = BOUNDARY_BETWEEN_FORMS;
                     c.forced_collect(&mut self.vm, 0);
                 }));
-                if r.is_err() {
+                if r.is_err() || self.ctl.borrow().poisoned {
                     self.dead = true;
                 }
             }
